@@ -744,6 +744,29 @@ def _judge_wrapped_reservoirs(tag="0"):
                 return {"key": "law:ipreservoir", "what": "IPReservoir (before any fit) with feedback, activation=%r, fb_activation=%r: step %d is not the documented law "
                         "(max abs error %.3g)" % (act, fbact, t, float(np.max(np.abs(got[t] - x)))), "scenario": sc, "expected": x.tolist(), "observed": np.asarray(got[t]).tolist()}
             fb = x[:2] * 0.5
+    # the reservoir reached through the ESN convenience node: equation='external', lr < 1, TWO sequences in one ESN.run on a fresh ESN (default sequential backend):
+    # every sequence follows the external law from the null state and the null pre-activation (the ESN runs its sequences independently)
+    from reservoirpy.nodes import ESN, Reservoir, Ridge
+    sc = {"kind": "wrapped-reservoir", "what": "esn-external-two-sequences", "tag": tag}
+    try:
+        res = Reservoir(3, W=W, Win=Win, bias=np.zeros((3, 1)), lr=0.5, equation="external", activation="tanh", name="wr%s_x" % tag)
+        esn = ESN(reservoir=res, readout=Ridge(1, ridge=0.5, name="wr%s_o" % tag), name="wr%s_e" % tag)
+        X1, X2 = rs.randint(-8, 9, (4, 2)) / 4.0, rs.randint(-8, 9, (5, 2)) / 4.0
+        esn.fit([X1, X2], [np.ones((4, 1)), np.ones((5, 1))])
+        got = esn.run([X1, X2], return_states="all", reset=True)
+        seqs = got["reservoir"] if "reservoir" in got else [v for k_, v in got.items() if k_.startswith(res.name)][0]
+    except Exception as e:  # noqa: BLE001
+        return {"key": "law:esn-external:exception", "what": "ESN with an external-equation reservoir run on two sequences raises %s: %s" % (type(e).__name__, e), "scenario": sc,
+                "expected": None, "observed": None}
+    for k, (Xk, Sk) in enumerate(zip((X1, X2), seqs)):
+        x, r = np.zeros(3), np.zeros(3)
+        for t, u in enumerate(Xk):
+            r = 0.5 * r + 0.5 * (W @ x + Win @ u)
+            x = np.tanh(r)
+            if not np.allclose(np.asarray(Sk)[t], x, rtol=1e-10, atol=1e-12):
+                return {"key": "law:esn-external:sequences-not-independent", "what": "ESN(reservoir=Reservoir(equation='external', lr=0.5)).run([X1, X2], reset=True) on the default "
+                        "sequential backend: step %d of sequence %d is not the external law from the null state and pre-activation (max abs error %.3g): the pre-activation of the "
+                        "previous sequence leaked" % (t, k, float(np.max(np.abs(np.asarray(Sk)[t] - x)))), "scenario": sc, "expected": x.tolist(), "observed": np.asarray(Sk)[t].tolist()}
     return None
 
 
